@@ -9,8 +9,8 @@ Lit(ty, rank)  == [cls |-> "lit", ty |-> ty, lit |-> rank, ref |-> FALSE, list |
 Kw(ty)         == [cls |-> "kw",  ty |-> ty, lit |-> 0,    ref |-> FALSE, list |-> FALSE, tname |-> 0, tid |-> 0]
 Par(ref, list, tname, tid) ==
                   [cls |-> "param", ty |-> 3, lit |-> 0, ref |-> ref, list |-> list, tname |-> tname, tid |-> tid]
-\* printed names, ranked in Go string order: "Punkt" < "Text" < "Zahl" < "Zahlen Liste"
-NPunkt == 1  NText == 2  NZahl == 3  NZahlenListe == 4
+\* printed names, ranked in Go string order: "Byte" < "Punkt" < "Text" < "Zahl" < "Zahlen Liste"
+NByte == 0  NPunkt == 1  NText == 2  NZahl == 3  NZahlenListe == 4
 Vocab == <<
    Lit(2, 1),                      \*  1 foo      IDENTIFIER "foo"
    Lit(2, 2),                      \*  2 zeige    IDENTIFIER "zeige"
@@ -23,9 +23,11 @@ Vocab == <<
    Par(FALSE, FALSE, NZahl, 1),    \*  9 pAZ      <a> Nummer = alias of Zahl
    Par(FALSE, TRUE,  NZahlenListe, 5), \* 10 pZL  <a> Zahlen Liste
    Par(FALSE, FALSE, NPunkt, 6),   \* 11 pC       <a> Punkt (module c)
-   Lit(6, 1)                       \* 12 int1     INT "1"
+   Lit(6, 1),                      \* 12 int1     INT "1"
+   Kw(23),                         \* 13 nicht    token.NICHT
+   Par(FALSE, FALSE, NByte, 7)     \* 14 pBy      <a> Byte
 >>
-VocabNames == <<"foo", "zeige", "mit", "pZ", "pT", "pZr", "pA", "pB", "pAZ", "pZL", "pC", "int1">>
+VocabNames == <<"foo", "zeige", "mit", "pZ", "pT", "pZr", "pA", "pB", "pAZ", "pZL", "pC", "int1", "nicht", "pBy">>
 VocabSet == {Vocab[i] : i \in 1..Len(Vocab)}
 
 ASSUME StrictWeakOrder(VocabSet)
